@@ -758,7 +758,7 @@ class Walker:
             if v is not None:
                 env2[dk] = v
         c = dict(self._ctor)
-        sub = Walker(self.F, callee.body, want_ret=True, ret_prefixes=(), **c)
+        sub = type(self)(self.F, callee.body, want_ret=True, ret_prefixes=(), **c)     # subclasses keep their inlining policy
         sub.pre, sub.depth, sub.frames = pre2, self.depth + 1, self.frames + (self.body.fn.q,)
         sub._full_ret = True
         sub.max_states = max(1000, self.max_states - self.states_explored)
